@@ -137,7 +137,9 @@ func (a *simAdapter) enqueue(item any, prio int) bool {
 	a.arrival++
 	e := adEntry{Prio: prio, Arrival: a.arrival, Sub: sub}
 	if isBytes {
-		e.Bytes = append([]byte(nil), b...)
+		// the backend keeps the very slice it was handed (as any in-memory adapter does, the
+		// repository's mocks included): the producer must not reuse that memory
+		e.Bytes = b
 		var idv struct {
 			ID string `json:"id"`
 		}
